@@ -30,7 +30,8 @@ def gen_expr(rng, tag):
     """Returns token list; REC is the command except in the missing-command shape."""
     kind = rng.choice(["-exec", "-exec", "-execdir"])
     tmpl = gen_template(rng)
-    shape = rng.choice(["plain", "after-test", "negated", "in-or", "twice", "missing-command", "after-type", "unexecutable-command", "relative-tool"])
+    shape = rng.choice(["plain", "after-test", "negated", "in-or", "twice", "missing-command", "after-type", "unexecutable-command", "relative-tool",
+                        "then-plus"])
     cmd = common.REC
     ex = [kind, cmd, tag] + tmpl + [";"]
     if shape == "plain":
@@ -43,6 +44,9 @@ def gen_expr(rng, tag):
         toks = ["!"] + ex + ["-printf", "N:%p\\0", "-o", "-printf", "P:%p\\0"]
     elif shape == "in-or":
         toks = ["-type", "d", "-o"] + ex + ["-printf", "T:%p\\0"]
+    elif shape == "then-plus":
+        # a ';' action followed, later in the same expression, by a batching '{} +' action: each keeps its own terminator
+        toks = ex + ["-printf", "T:%p\\0", rng.choice(["-exec", "-execdir"]), cmd, tag + "plus", "{}", "+"]
     elif shape == "twice":
         toks = ex + [kind, cmd, tag + "b"] + gen_template(rng) + [";", "-printf", "TT:%p\\0"]
     elif shape == "relative-tool":
@@ -75,7 +79,10 @@ def worker(job):
         for t in range(nruns):
             sb = os.path.join(base, "t%d" % t)
             os.makedirs(sb)
-            nodes = treegen.hostile_tree(rng, "r", max_nodes=rng.choice([5, 10, 20]))
+            # the tree's top directory: usually r; sometimes a name that starts with '-' (the lone '-' can be given as an operand,
+            # others only through -files0-from): {} is still the path as find prints it, byte for byte
+            top = rng.choice(["r"] * 8 + ["-", "-d1", "-name"])
+            nodes = treegen.hostile_tree(rng, top, max_nodes=rng.choice([5, 10, 20]))
             raw_names = False
             if rng.random() < 0.3:
                 # names that are not valid UTF-8 (carried as surrogate escapes): {} must still receive the exact bytes
@@ -107,8 +114,10 @@ def worker(job):
                     st.add("hostile_classes", c)
             # the starting point: usually r, sometimes an entry with several path components (-execdir at depth 0 must then
             # run in its parent directory and name it ./basename)
-            root = "r"
-            cands = [n.path for n in nodes if n.path != "r" and not any(0xDC80 <= ord(ch) <= 0xDCFF for ch in n.path) and "\n" not in n.path
+            root = top
+            if top != "r":
+                st.inc("starting_points_beginning_with_a_dash")
+            cands = [n.path for n in nodes if top == "r" and n.path != "r" and not any(0xDC80 <= ord(ch) <= 0xDCFF for ch in n.path) and "\n" not in n.path
                      and n.kind in ("d", "f")]
             if cands and rng.random() < 0.3:
                 root = rng.choice(cands)
@@ -128,7 +137,13 @@ def worker(job):
                 st.inc("unexecutable_command_runs")
             log = os.path.join(sb, "rec.log")
             env = common.clean_env({"VERIF_REC_LOG": log, "VERIF_REC_FN": "outcome6"})
-            rc, out, err, to = common.run_cmd([common.FIND, root] + toks, cwd=sb, env=env, timeout=120)
+            if root.startswith("-") and root != "-":
+                lf = os.path.join(base, "roots-%d.lst" % t)
+                with open(lf, "wb") as f_:
+                    f_.write(root.encode() + b"\0")
+                rc, out, err, to = common.run_cmd([common.FIND, "-files0-from", lf] + toks, cwd=sb, env=env, timeout=120)
+            else:
+                rc, out, err, to = common.run_cmd([common.FIND, root] + toks, cwd=sb, env=env, timeout=120)
             st.inc("evaluations")
             st.inc("shape:" + shape)
             st.inc("kind:" + kind)
@@ -152,13 +167,19 @@ def worker(job):
             w = refwalk.Walk("P", 0, None, False, True, sb)
             w.run(root, on_visit)
             exp_runs = [(d, argv[1:]) for (name, d, argv, path) in renv.exec_log if argv[0] == common.REC or (argv[0] == "./tool" and d in tool_dirs)]
+            exp_plus = [arg for (_ast, lst) in renv.plus.values() for (d_, arg, path_) in lst]
             for d_, a_ in exp_runs:
                 st.inc("child_outcome:" + ["exit0", "exit0", "exit1", "exit3", "SIGKILL", "SIGTERM"][refeval.rec_chain(a_) % 6])
             got = xref.read_reclog(log)
             got_runs = []
+            got_plus = []
             for cwd, argv in got:
                 rel = os.path.relpath(cwd.decode("utf-8", "surrogateescape"), sb)
-                got_runs.append((rel, [a.decode("utf-8", "surrogateescape") for a in argv]))
+                argv_s = [a.decode("utf-8", "surrogateescape") for a in argv]
+                if shape == "then-plus" and argv_s and argv_s[0] == tag + "plus":
+                    got_plus += argv_s[1:]
+                    continue
+                got_runs.append((rel, argv_s))
             st.inc("child_invocations", len(got_runs))
             st.add("distinct", (tuple(toks), tuple(n.path for n in nodes)))
             problems = []
@@ -190,7 +211,11 @@ def worker(job):
                 d = refeval.match_chunks(out, chunks)
             if d:
                 problems.append("truth value / following action: " + d)
-            if rc != 0:
+            if shape == "then-plus":
+                st.inc("runs_with_a_plus_action_after_the_semicolon_action")
+                if sorted(got_plus) != sorted(exp_plus):
+                    problems.append("the '{} +' action after the ';' action received %r, expected %r" % (got_plus[:6], exp_plus[:6]))
+            if rc != 0 and not (shape == "then-plus" and rc == 1 and exp_plus):
                 problems.append("find exit status %r (stderr %r)" % (rc, err[-160:]))
             if shape == "missing-command":
                 st.inc("missing_command_runs")
